@@ -25,8 +25,8 @@ RULE = ('every span of each type up to the length bound (ranges with non-zero or
         'pandas partial-string labels x every (start, stop) over labels + absent + None x step in {None,1,2,3} x '
         '{get, set scalar, set list}; after every write the series is read back through attribute, name key, '
         'position, label and label slice; writes through attribute / key / position are read back by label. '
-        'Whole space enumerated (seed-independent) on VectorContainer; BaseModel and BaseLinker instances run a '
-        'seeded sample. distinct = distinct (flavour, span, access); non-trivial = the access addresses at least one '
+        'Whole space enumerated (seed-independent) on VectorContainer; BaseModel (hand-written / parser-built) and '
+        'BaseLinker instances take every second span in a fixed rotation (every span in the thorough tier). distinct = distinct (flavour, span, access); non-trivial = the access addresses at least one '
         'period or must raise KeyError')
 TRUSTED = ["pandas' own get_loc is outside the model: what the installed pandas returns for every label used is "
            "recorded by the harness (not through fsic) and fed to the model as the table Store.getLoc",
@@ -380,12 +380,13 @@ def pyslice_cases(ctx, rep, nmax):
 
 def all_cases(ctx, nmax, steps):
     cases, partials = [], []
-    rng = ctx.sub_rng('flavours')
+    k = 0
     for n in range(1, nmax + 1):
         for tag, spec, equal, absent, partial in span_catalogue(n):
-            flavours = ['container']
-            if ctx.tier != 'quick' or rng.random() < 0.5 * ctx.scale:
-                flavours.append(rng.choice(['model', 'built', 'linker']))
+            k += 1
+            flavours = ['container']        # fixed rotation (seed-independent): the whole run is one enumeration
+            if ctx.tier != 'quick' or ctx.scale > 1 or k % 2 == 0:
+                flavours.append(['model', 'built', 'linker'][k % 3])
             for fl in flavours:
                 for c in span_cases(fl, tag, spec, n, equal, absent, partial, steps):
                     cases.append(c)
